@@ -285,3 +285,14 @@ pub fn wait_until_call_registered(w: &World, node: &Node, want: impl Fn() -> usi
         std::thread::sleep(std::time::Duration::from_micros(200));
     }
 }
+
+/// Keep reading the node's request timeout (see `run_until_sampling_timeout`) until virtual time `t_abs`: a
+/// call may have returned before an answer it was still entitled to arrives, and whether the node was entitled
+/// to give up is exactly what the timeline decides.
+pub fn extend_sampling_until(w: &World, node: &Node, t_abs: u64, line: &mut Vec<(u64, u64)>) {
+    if w.now() > t_abs {
+        return;
+    }
+    let (_, more) = run_until_sampling_timeout(w, node, (t_abs - w.now()) + 2 * MS, |w| w.now() > t_abs);
+    line.extend(more);
+}
